@@ -20,6 +20,6 @@ MCCreds == {"none", "malformed", "unknownKey", "otherAccountKey", "validOtherByt
 
 MCAcls == {"none", "allowA", "allowOther", "denyA", "denyOther", "allowA_denyA"}
 
-Case == [acl |-> acl, trusted |-> trusted, ep |-> last.ep, cred |-> last.cred, out |-> last.out]
+Case == [acl |-> acl, trusted |-> trusted, revokedBy |-> revokedBy, ep |-> last.ep, cred |-> last.cred, out |-> last.out]
 EmitInv == (EmitCases /\ last.ep[1] \notin {"-", "config", "revoke"}) => PrintT(<<"CASE", ToJson(Case)>>)
 =============================================================================
